@@ -53,6 +53,26 @@ Definition dyn_add (d : dyn) (ts : T * St) : dyn :=
 Definition dyn_of (adds : list (T * St)) : dyn := fold_left dyn_add adds ([], []).
 End Dynamics.
 
+(* ---- MeanFieldDynamics.add ----------------------------------------------------------------------------------------
+   self._times / self._fields get the new entry at the bisect index of the object's own time list; the list of
+   per-system Dynamics objects is created at the first addition (one per state handed over) and every one of them
+   then performs its own Dynamics.add(time, system_states[i]) -- with its own bisect over its own time list.
+   The code asserts len(system_states) == len(self._system_dynamics); `combine` truncates instead, and the theorems
+   are stated under exactly that guard (every addition carries n states). *)
+Section MeanFieldDynamics.
+Variables T F St : Type.
+Variable leb : T -> T -> bool.
+Definition mfd := (dyn T F * list (dyn T St))%type.
+Definition mfd_add (m : mfd) (a : T * F * list St) : mfd :=
+  let sys0 := match snd m with
+              | [] => map (fun _ => ([], [])) (snd a)
+              | _ :: _ => snd m
+              end in
+  (dyn_add T F leb (fst m) (fst a),
+   map (fun ds => dyn_add T St leb (fst ds) (fst (fst a), snd ds)) (combine sys0 (snd a))).
+Definition mfd_of (adds : list (T * F * list St)) : mfd := fold_left mfd_add adds (([], []), []).
+End MeanFieldDynamics.
+
 (* ---- where explicit times enter (C15) ------------------------------------------------------------
    TimeDependentSystem.get_propagators with subdiv_limit=None samples the Liouvillian at
    t + dt/4.0 and t + dt*3.0/4.0 with t = start_time + step*dt *)
